@@ -35,6 +35,11 @@ void resetScenario(); // forget interning; serial numbers keep increasing
 std::vector<std::pair<std::string, int>>& initLog();
 std::string& lastNote(); // value of the free-form "note" argument of the last successful init
 
+// concurrent use (C14: init runs on the watcher thread): no events, no shared init log; the id of the last
+// successful init on THIS thread is kept instead
+void setConcurrentMode(bool on);
+std::string& lastInitIdThisThread();
+
 extern const char* kDetName; // "verif_det"
 extern const char* kActName; // "verif_act"
 extern const char* kHookName; // "verif_hook"
